@@ -283,6 +283,8 @@ def tokEvents (t : String) : Option (List ReaderClose.Event) :=
   | ["bc", _] => some [.connClose, .coordClose]
   | ["fq"] => some [.fetchReq]
   | ["lk", _] => some []
+  | ["lo", _] => some []                        -- connections of the Reader's lag monitor: censused (`oc`), not ordered
+  | ["lc", _] => some []
   | ["oc", _] => some []
   | ["ci"] => some []
   | ["rl"] => some []
